@@ -9,8 +9,11 @@ prove      : lake build SteelVerif.C02.Props (+ axiom audit): the inlining pass 
              the configuration sets cover the extracted switches pairwise / exhaustively.
 correspond : one child process of harness `c02` per configuration (the switches are read from the process
              environment): directed corpus, whole programs (gen/progs.py), lowered-core programs (gen/frag.py),
-             whole-language histories and model histories (gen/hist02.py).  All configurations have to
-             produce the same record (script output, values, error-or-success, error kind) per piece.
+             whole-language histories, directed patterns of the finding classes, programs over user modules,
+             operand-type coverage of the native tier, and model histories (gen/hist02.py).  All configurations
+             have to produce the same record (script output, values, error-or-success, error kind) per piece.
+             A difference is attributed to an open finding only if the input is in the finding's class AND the
+             deviation has the finding's signature (which configurations deviate); anything else is a VIOLATION.
 oracle     : agreement between configurations is the property.  The reference semantics S (c02driver) and the
              model (c02driver frag / hist) run as third parties: when all configurations agree with each other
              but not with S the case is logged (`agree_but_differ_from_S`) and left to C01/C06.
@@ -27,14 +30,14 @@ sys.path.insert(0, C.VERIF)
 from gen.progs import gen_program            # noqa: E402
 from gen.frag import gen_frag_program        # noqa: E402
 from gen.hist02 import (gen_history, gen_model_history, gen_k02a_pattern, gen_k02b_pattern,   # noqa: E402
-                        gen_module_program)
+                        gen_module_program, gen_jitops_program)
 
 PID = "C02"
 META = {
     "ready": True,
     "category": "proof",
     "technique": "Lean 4 theorems about the configuration-dependent mechanisms on the lowered core of C01 (inlining pass preserves the reference semantics; two-tier execution is schedule-independent; unit-local inlining across evaluation histories is transparent exactly under a stated guard, with a machine-checked counter-witness outside it; the tested configuration sets cover the switches extracted from the source) + differential execution of generated programs and piecewise histories under a pairwise-covering (quick) / the complete (thorough) set of switch settings, one process per configuration, with the reference semantics as a third party",
-    "level_text": "Proved (SteelVerif/C02/Props.lean), for all programs of the lowered core, all stacks, all call depths: inline_preserves (one pass of the inliner with the real legality conditions - known unit-local callee, size below threshold, exact operand count, policy 'defined before the call site and not assigned in the unit' - yields a value iff the original does, and the same one; also with every procedure body of the unit rewritten), inline_twice_preserves (STEEL_INLINE: the pass run again on its own output), tier_transparent (a machine that hands execution between interpreter and native tier at arbitrary instruction boundaries computes the result of the interpreter, for every schedule, given that a native instruction does what the interpreter's does) with tier_hypothesis_needed (a native call without arity check is observable), inline_history_partial (pieces evaluated one after another over global cells, each compiled by the unit-local inliner: same observations as without inlining for every history in which no piece assigns a cell an earlier piece could inline) and inline_history_false (the full statement is refuted by the history define f, define g calling f / set! f / call g), switches_covered + quick_pairwise + thorough_complete (the configuration sets used by the run cover the five switches found in the source). NOT proved: that the Cranelift tier implements each op code like the interpreter (the hypothesis of tier_transparent), closure lifting, cross-module inlining, the recursive inliner, constant propagation; these are covered only by the differential run, which is a per-program fact.",
+    "level_text": "Proved (SteelVerif/C02/Props.lean), for all programs of the lowered core, all stacks, all call depths: inline_preserves (one pass of the inliner with the real legality conditions - known unit-local callee, size below threshold, exact operand count, policy 'defined before the call site and not assigned in the unit' - yields a value iff the original does, and the same one; also with every procedure body of the unit rewritten), inline_twice_preserves (STEEL_INLINE: the pass run again on its own output), fold_preserves / inline_then_fold_preserves (constant folding and dead-branch elimination of what inlining exposes: identical results at identical fuel, errors included), tier_transparent (a machine that hands execution between interpreter and native tier at arbitrary instruction boundaries computes the result of the interpreter, for every schedule, given that a native instruction does what the interpreter's does) with tier_hypothesis_needed (a native call without arity check is observable), inline_history_partial (pieces evaluated one after another over global cells, each compiled by the unit-local inliner: same observations as without inlining for every history in which no piece assigns a cell an earlier piece could inline) and inline_history_false (the full statement is refuted by the history define f, define g calling f / set! f / call g), switches_covered + quick_pairwise + thorough_complete (the configuration sets used by the run cover the five switches found in the source). NOT proved: that the Cranelift tier implements each op code like the interpreter (the hypothesis of tier_transparent - the differential run shows it is false for errors raised by specialised primitive op codes, finding K02e), closure lifting, cross-module inlining, the recursive inliner, constant propagation; these are covered only by the differential run, which is a per-program fact. Open findings reproduced by the run: K02a (inlined global assigned later: stale copies to a configuration-dependent depth), K02b (recursive inliner ignores operand count), K02c (STEEL_MODULE_INLINE turns value imports into live bindings), K02d (stale module AST defeats the set_bang guard under STEEL_INLINE / STEEL_MODULE_INLINE), K02e (errors inside native library code are lost or abort the process).",
     "level_note": "Trusted: Lean kernel, the translator regexes, harness/driver/comparison, generator coverage. The model of the inliner is my transcription on the lowered core (absolute stack offsets) of analysis.rs inline_function_calls/inline_handle_define; it is tied to the code only by the differential run (model value = value under every configuration on fragment programs and model histories).",
 }
 
@@ -57,7 +60,8 @@ def parse_records(text):
             continue
         elif line[:2] in ("\x1eV", "\x1eE", "\x1eP"):
             if line[1] == "V":
-                res = ("ok", tuple(v for v in line[3:].split("\x1f") if v and v != "#<void>"))
+                # all values, `#<void>` included: configurations are compared on exactly what was returned
+                res = ("ok", tuple(v for v in line[3:].split("\x1f") if v))
             elif line[1] == "E":
                 res = ("err", line[3:].split(" | ")[0].strip())
             else:
@@ -81,9 +85,16 @@ def same(a, b, kinds=True):
     return True
 
 
+def novoid(rec):
+    if rec is None or rec["res"][0] != "ok":
+        return rec
+    return {"out": rec["out"], "res": ("ok", tuple(v for v in rec["res"][1] if v != "#<void>"))}
+
+
 def same_as_spec(r, s):
-    """real record vs reference semantics: outcome class, output, values (S has no error kinds)."""
-    return same(r, s, kinds=False)
+    """real record vs reference semantics: outcome class, output, non-void values (S has no error kinds; the
+    engine returns one more `#<void>` per unit than S)."""
+    return same(novoid(r), novoid(s), kinds=False)
 
 
 def cfg_name(cfg):
@@ -285,11 +296,41 @@ CLASS_NAMES = {
     "K02b": "wrong_operand_count_call_under_recursive_inliner",
     "K02c": "export_assigned_inside_its_module_after_import",
     "K02d": "module_procedure_assigned_inside_its_module",
+    "K02e": "primitive_error_inside_jit_compiled_library_or_module_procedure",
 }
 CLASS_ALIASES = {"K02a": ("global_defined_and_read_in_one_unit_assigned_later",)}   # K06a: the same defect seen by C06
 IDX_INLINE_RECURSIVE = SWITCH_NAMES.index("STEEL_INLINE_RECURSIVE")
 IDX_MODULE_INLINE = SWITCH_NAMES.index("STEEL_MODULE_INLINE")
 IDX_INLINE = SWITCH_NAMES.index("STEEL_INLINE")
+IDX_JIT = SWITCH_NAMES.index("STEEL_JIT")
+
+
+def k02e_signature(r_on, r_off):
+    """The native configuration deviates from the interpreter only where the interpreter reports an error:
+    the whole piece fails / the process dies, or - value by value - every differing position is an error
+    marker on the interpreter's side."""
+    if r_on is None or r_off is None:
+        return False
+    if same(r_on, r_off):
+        return False
+    if r_off["res"][0] != "ok" or r_on["res"][0] != "ok":
+        return True                      # shows_error(r_off) is checked by the caller
+    a, b = r_on["res"][1], r_off["res"][1]
+    if len(a) != len(b):
+        return False
+    vals_ok = all(x == y or re.search(r"\berr\b", y) for x, y in zip(a, b))
+    out_ok = r_on["out"] == r_off["out"] or bool(re.search(r"\berr\b", r_off["out"]))
+    return vals_ok and out_ok
+
+
+def shows_error(rec):
+    """The record of a piece under the interpreter shows that an error was raised: the piece failed, or a
+    handler of the generated programs returned its marker (`err`, or the constant 42 of the arity pieces)."""
+    if rec is None:
+        return False
+    if rec["res"][0] != "ok":
+        return True
+    return any(re.search(r"\berr\b", v) for v in rec["res"][1]) or bool(re.search(r"\berr\b", rec["out"]))
 
 
 def in_class(cls, kid, j):
@@ -412,6 +453,15 @@ def process(ctx, batch, configs, values, stats, known):
                 # a module that assigns its own procedure; only configurations with STEEL_INLINE or
                 # STEEL_MODULE_INLINE deviate from the default
                 attributed = "K02d"
+            if attributed is None and "K02e" in known:
+                off = [n for n in names if n[IDX_JIT] == "1"]     # bit set = STEEL_JIT=false
+                on = [n for n in names if n[IDX_JIT] == "0"]
+                r_off = recs[off[0]][i][j] if off and recs[off[0]][i] else None
+                # the interpreter configurations agree with each other and report an error at this piece; every
+                # native configuration deviates from them
+                if off and on and first_difference(recs, i, j + 1, off) is None and shows_error(r_off) and \
+                        all(k02e_signature(recs[n][i][j] if recs[n][i] else None, r_off) for n in on):
+                    attributed = "K02e"
             if attributed:
                 ctx.known_finding("id=%s %s" % (attributed, known[attributed]))
                 stats["known_hits"][attributed] = stats["known_hits"].get(attributed, 0) + 1
@@ -471,7 +521,7 @@ def check_model(ctx, batch, i, base, mod, stats):
         if exp is None or r is None:
             continue
         stats["model_compared"] += 1
-        got = [v for v in r["res"][1] if not v.startswith("#<")] if r["res"][0] == "ok" else None
+        got = [v for v in r["res"][1] if not v.startswith("#<")] if r["res"][0] == "ok" else None   # voids, closures
         if got != exp:
             stats["model_vs_real"] += 1
             if len(stats["model_samples"]) < 4:
@@ -674,6 +724,15 @@ def run(ctx):
             stats["features"]["modules"] = stats["features"].get("modules", 0) + 1
             b.add(h["pieces"], cls={"K02c": h["k02c"]})
         process(ctx, b, configs, values, stats, known)
+
+    # 4c. operand-type coverage of the native tier (no reference semantics: bignums, floats, rationals)
+    b = Batch("jitops")
+    b.nospec = True
+    for _ in range(24 if q else 200):
+        h = gen_jitops_program(rng)
+        stats["features"]["jit-operand-types"] = stats["features"].get("jit-operand-types", 0) + 1
+        b.add(h["pieces"])
+    process(ctx, b, configs, values, stats, known)
 
     # 5. model histories (lowered-core): the Lean model predicts the value under every configuration inside the guard
     b = model_hist_batch(rng, 30 if q else 160, stats, ctx)
